@@ -277,6 +277,17 @@ impl Drop for Shared {
             if let Err(err) = self.enter(0, 0, Some(Duration::ZERO)) {
                 log::warn!("error submitting last submissions: {err}");
             }
+            if self.kernel_thread {
+                // The kernel thread consumes the submissions asynchronously
+                // (we only woke it up above), closing the ring before it had
+                // the chance to do so would drop them. Give it some time.
+                let start = std::time::Instant::now();
+                while self.unsubmitted_submissions() != 0
+                    && start.elapsed() < Duration::from_secs(1)
+                {
+                    std::thread::yield_now();
+                }
+            }
         }
 
         let ptr = self.submissions.cast();
